@@ -162,25 +162,27 @@ def lookupIn : List Frame → Bytes → Option Bytes
 /-- `none` is the "" the Go code returns for an unbound name -/
 def lookup (s : Scope) (k : Bytes) : Option Bytes := lookupIn s.stack k
 
-/-- loopLimitKey / loopIndexKey ("$" cannot occur in a Soy variable name) -/
-def kLimit : Bytes := b!"$limit"
-def kIndex : Bytes := b!"$index"
+/-- loopLimitKey / loopIndexKey, prefixes of the keys under which a loop's frame records its limit
+    and index variables ("$" cannot occur in a Soy variable name) -/
+def kLimit : Bytes := b!"$limit:"
+def kIndex : Bytes := b!"$index:"
 
 def pushForRange (s : Scope) (loopVar : Bytes) : (Bytes × Bytes) × Scope :=
   let n := s.n + 1
   let d := F64.natDigits n
-  let f := frameSet (frameSet (frameSet [] loopVar (loopVar ++ d)) kLimit (loopVar ++ b!"Limit" ++ d)) kIndex (loopVar ++ d)
+  let f := frameSet (frameSet (frameSet [] loopVar (loopVar ++ d)) (kLimit ++ loopVar) (loopVar ++ b!"Limit" ++ d)) (kIndex ++ loopVar) (loopVar ++ d)
   ((loopVar ++ d, loopVar ++ b!"Limit" ++ d), { stack := f :: s.stack, n := n })
 
 def pushForEach (s : Scope) (loopVar : Bytes) : (Bytes × Bytes × Bytes × Bytes) × Scope :=
   let n := s.n + 1
   let d := F64.natDigits n
-  let f := frameSet (frameSet (frameSet [] loopVar (loopVar ++ d)) kLimit (loopVar ++ b!"Limit" ++ d)) kIndex (loopVar ++ b!"Index" ++ d)
+  let f := frameSet (frameSet (frameSet [] loopVar (loopVar ++ d)) (kLimit ++ loopVar) (loopVar ++ b!"Limit" ++ d)) (kIndex ++ loopVar) (loopVar ++ b!"Index" ++ d)
   ((loopVar ++ d, loopVar ++ b!"List" ++ d, loopVar ++ b!"Limit" ++ d, loopVar ++ b!"Index" ++ d),
    { stack := f :: s.stack, n := n })
 
-def looplimit (s : Scope) : Option Bytes := s.lookup kLimit
-def loopindex (s : Scope) : Option Bytes := s.lookup kIndex
+/-- the JS variable of the limit / index of the (innermost) loop over `loopVar` -/
+def looplimit (s : Scope) (loopVar : Bytes) : Option Bytes := s.lookup (kLimit ++ loopVar)
+def loopindex (s : Scope) (loopVar : Bytes) : Option Bytes := s.lookup (kIndex ++ loopVar)
 
 end Scope
 
@@ -373,6 +375,19 @@ def applyFn (ws : List (M Unit)) : Option (Option (List Gen.JsFnPart)) → M Uni
   | some (some parts) => applyParts ws parts
   | _ => fail
 
+/-- loopVarOf: the loop variable isFirst / isLast / index refer to ("" unless the single argument
+    is a data reference) -/
+def loopVarOf : ExprList → Bytes
+  | .cons (.dataRef _ key _) .nil => key
+  | _ => []
+
+/-- does any access of the data reference use `?.` / `?[` -/
+def anyNullSafe : AccessList → Bool
+  | .nil => false
+  | .cons (.key _ ns _) r => ns || anyNullSafe r
+  | .cons (.index _ ns _) r => ns || anyNullSafe r
+  | .cons (.expr _ ns _) r => ns || anyNullSafe r
+
 def mapKeys : MapItems → List Bytes
   | .nil => []
   | .cons k _ r => k :: mapKeys r
@@ -405,13 +420,14 @@ mutual
       | none =>
         if name == b!"isFirst" then do
           let sc ← getScope
-          fx b!"("; emit (identOrEmpty sc.loopindex); fx b!" == 0)"
+          fx b!"("; emit (identOrEmpty (sc.loopindex (loopVarOf args))); fx b!" == 0)"
         else if name == b!"isLast" then do
           let sc ← getScope
-          fx b!"("; emit (identOrEmpty sc.loopindex); fx b!" == "; emit (identOrEmpty sc.looplimit); fx b!" - 1)"
+          fx b!"("; emit (identOrEmpty (sc.loopindex (loopVarOf args))); fx b!" == "
+          emit (identOrEmpty (sc.looplimit (loopVarOf args))); fx b!" - 1)"
         else if name == b!"index" then do
           let sc ← getScope
-          emit (identOrEmpty sc.loopindex)
+          emit (identOrEmpty (sc.loopindex (loopVarOf args)))
         else fail
     | .dataRef _ key acc => do
       atOther
@@ -421,7 +437,10 @@ mutual
         else match sc.lookup key with
           | some g => [.ident g]
           | none => [.fixed b!"opt_data.", .ident key]
+      -- a null-safe reference is a conditional: it gets parentheses of its own
+      whenM (anyNullSafe acc) (fx b!"(")
       visitAccess acc e0
+      whenM (anyNullSafe acc) (fx b!")")
     | .not _ a => do atOther; fx b!"!("; walkExpr a; fx b!")"
     | .neg _ a => do atOther; fx b!"(- "; walkExpr a; fx b!")"
     | .bin op _ a b =>
